@@ -366,6 +366,25 @@ def r7_specifier_tables(idx, r):
                       "so the component is placed at none of its lattice positions")
 
 
+def r7b_explicit_list_specifiers(idx, r):
+    """Assembly designs are registered under string specifiers.  The specifiers of an explicit `grid contents` list are whatever YAML parsed
+    (`[0, 0]: 1` is an integer): where such an entry is resolved to a design it must be brought to a string first, as the lattice-map path does
+    implicitly - otherwise the same core is accepted as a text map and fails with a bare KeyError as a list."""
+    f = idx.method("armi.reactor.blueprints.reactorBlueprint.SystemBlueprint", "_loadComposites")
+    if f is None:
+        raise AnchorMissing("SystemBlueprint._loadComposites")
+    loop = next((n for n in walk_local(f.node) if isinstance(n, ast.For) and isinstance(n.iter, ast.Call) and call_attr(n.iter) == "items" and isinstance(n.target, ast.Tuple) and len(n.target.elts) == 2), None)
+    call = next((c for c in iter_calls(f.node) if call_attr(c) == "constructAssem"), None)
+    if loop is None or call is None:
+        raise AnchorMissing("_loadComposites: loop over gridContents.items() calling constructAssem")
+    spec = next((k.value for k in call.keywords if k.arg == "specifier"), call.args[1] if len(call.args) > 1 else None)
+    raw = norm(loop.target.elts[1])
+    v = propagate(spec, single_assign_env(f.node)) if spec is not None else None
+    r.require(v is not None and isinstance(v, ast.Call) and dotted(v.func) == "str" and norm(v.args[0]) == raw, "explicit-list:specifier-as-string", f, node=call,
+              msg=f"the design is looked up with `{norm(v) if v is not None else '?'}` as parsed from the list: an integer-looking specifier (`[0,0]: 1`) raises KeyError(1) although the same core "
+                  "written as a lattice map builds")
+
+
 def r8_override_and_pitch_order(idx, r):
     """(a) A modification given for a specific component overrides the block-wide one of the same name: in
     _filterMaterialInput the block-wide entries are entered first, the component's own afterwards.
@@ -474,3 +493,5 @@ def run(idx, chk):
                  necessary="composition 'after the requested material modifications'; assemblies 'at every location named in the core map'")
     chk.run_rule("R18.9", "map layouts are handed out for their own domain only; explicit component flags are final", lambda r: r9_dispatch_and_explicit_flags(idx, r), floor=5,
                  necessary="the built reactor has the components, positions and flags the blueprint text specifies")
+    chk.run_rule("R18.7b", "specifiers of an explicit grid-contents list are resolved as strings (as the designs are registered)", lambda r: r7b_explicit_list_specifiers(idx, r), floor=1,
+                 necessary="text maps and explicit lists alike place the specified design at every named location")
